@@ -37,6 +37,7 @@ def run_one(d):
             if pid in GEN_GROUP:
                 gen_lock.release()
     sh("git -C /repo worktree remove --force %s" % wt)
+    sh("cd %s && git checkout -- $(git ls-files 'lean/RkVerif/Gen/%s*' 'harness/gen/%s*')" % (ROOT, pid, pid.lower()))
     kinds, detail = [], None
     for m in re.finditer(r"VIOLATION property=\S+ replay=(\S+)( no-failing-input-found)?", out):
         try:
